@@ -20,7 +20,11 @@
               every return runs the deferred cancel(): the helper goroutine broadcasts nupdates
          S3   lock; next = next.link; unlock; yield next.item          (nil dereference = panic)
 
-   The tracker is the unlimited one (a counter): the iterator never reads it.
+   The tracker: `qlen` is tracker.len().  tracker.add()'s verdict is an INPUT of the step: `LAdd v` is an Add
+   that the tracker accepts (always so for the unlimited tracker), `LAddRej v` one that it rejects
+   (ErrQueueFull / ErrQueueNoCredit of the hard-limit and quota trackers; the arithmetic of that decision is
+   C05's model).  doAdd returns the tracker's error BEFORE it allocates or links anything, so a rejected Add
+   is a no-op; the iterator never reads the tracker.
    The helper goroutine `go func(){ <-ctx.Done(); q.nupdates.Broadcast() }()` is modelled as a
    broadcast performed at the cancellation / at the return of waitForNew (see checks/c20.py, trusted base).
 
@@ -97,7 +101,8 @@ Inductive res :=
 Inductive label :=
 | LAdd (v : Z) | LRemove | LClose | LCancel (i : nat)
 | LCall (i : nat)        (* iterator i: Next is invoked *)
-| LRun (i : nat).        (* iterator i: its next atomic segment *)
+| LRun (i : nat)         (* iterator i: its next atomic segment *)
+| LAddRej (v : Z).       (* an Add whose tracker.add() reports an error *)
 
 Inductive event :=
 | EvNone | EvAdd (ok : bool) | EvRem (o : option Z) | EvRes (i : nat) (r : res) | EvPanicOp.
@@ -173,6 +178,7 @@ Definition step (s : state) (l : label) : state * event :=
       | _ => (s, EvNone)
       end
   | LRun i => let '(f, ev) := run_iter q (its s) i in (mkS q f, ev)
+  | LAddRej _ => (s, EvAdd false)     (* closed -> ErrQueueClosed; else `if err := q.tracker.add(); err != nil { return err }` *)
   end.
 
 Fixpoint run (s : state) (ls : list label) : state * list event :=
@@ -183,7 +189,8 @@ Fixpoint run (s : state) (ls : list label) : state * list event :=
 
 (* ---------------------------------------------------------------- harness-level actions (macro steps) *)
 
-Inductive qact := QAdd (v : Z) | QRemove | QClose | QCancel (i : nat) | QCall (i : nat) | QGo (i : nat) | QLen.
+Inductive qact := QAdd (v : Z) | QRemove | QClose | QCancel (i : nat) | QCall (i : nat) | QGo (i : nat) | QLen
+                | QAddRej (v : Z).
 Inductive ob := ObAdd (ok : bool) | ObRem (o : option Z) | ObUnit | ObIt (r : res) | ObLen (n : Z).
 
 (* run iterator i until it returns, stops in the window, parks, or cannot move *)
@@ -224,6 +231,7 @@ Definition qstep (s : state) (a : qact) : state * ob :=
       end
   | QGo i => let '(s', r) := drive 4 s i in (s', ObIt r)
   | QLen => (s, ObLen (Z.of_nat (qlen (sq s))))
+  | QAddRej v => let '(s', e) := step s (LAddRej v) in (s', ev_ob e)
   end.
 
 Fixpoint qrun (s : state) (acts : list qact) : list ob :=
